@@ -18,7 +18,10 @@ def stress_cases(ctx, res, n):
         nw = rnd.choice([2, 2, 3, 4])
         pool = pool_val if res == "val" else pool_coll
         progs = [dict(rnd.choice(pool)) for _ in range(nw)]
-        init = [rnd.choice([0, 1])] if res == "val" else [rnd.choice([-1, 1])]
+        init = [rnd.choice([0, 1, -1])] if res == "val" else [rnd.choice([-1, 1])]
+        if init == [-1] and res == "val":      # the first writes of an empty Value
+            progs = [dict(rnd.choice([call(v=1, cia=True), call(v=2, cia=True), call(v=1, inc=True, cia=True),
+                                      call(v=2, inc=True, cia=True), call(v=3, chk=True, cia=True)])) for _ in range(nw)]
         cases.append({"res": res, "init": init, "progs": progs, "kinds": [], "sched": [],
                       "stress": 40 if ctx.tier == "quick" else 400})
     return cases
@@ -26,9 +29,10 @@ def stress_cases(ctx, res, n):
 
 def run(ctx):
     thorough = ctx.tier == "thorough"
-    for cfg in ["ConcMC_val.cfg", "ConcMC_coll.cfg"] + (["ConcMC_coll3.cfg"] if thorough else []):
+    for cfg in ["ConcMC_val.cfg", "ConcMC_val0.cfg", "ConcMC_coll.cfg"] + (["ConcMC_coll3.cfg"] if thorough else []):
         ctx.mc("ConcMC", cfg, workers=vf.NCPU, timeout=3000)
     cases = conc_common.gen(ctx, "ConcGen_val.cfg", "val")
+    cases += conc_common.gen(ctx, "ConcGen_val0.cfg", "val")     # a Value with nothing stored yet
     cases += conc_common.gen(ctx, "ConcGen_coll.cfg", "coll", limit=None if thorough else 6000)
     if thorough:
         cases += conc_common.gen(ctx, "ConcGen_coll3.cfg", "coll", simulate="num=30000", limit=30000, timeout=1800)
